@@ -46,6 +46,9 @@
 #include "awkward/partition/PartitionedArray.h"
 #include "awkward/partition/IrregularlyPartitionedArray.h"
 #include "awkward/builder/ArrayBuilder.h"
+#include "awkward/forth/ForthMachine.h"
+#include "awkward/forth/ForthInputBuffer.h"
+#include "awkward/forth/ForthOutputBuffer.h"
 #include <map>
 #include "awkward/builder/ArrayBuilderOptions.h"
 
@@ -903,6 +906,74 @@ static std::string run_op(const std::string& op, Toks& tk, ContentPtr& result) {
       render(pa.repartition(ns));
     }
     else throw std::logic_error("driver: unknown partitioned action " + action);
+    return out.str();
+  }
+  else if (op == "forth") {
+    // forth <mode run|step|resume> <stack_max> <recursion_max> <out_initial> <out_resize*100> <source hex> <ninputs> (name hex)*
+    std::string mode = tk.next();
+    int64_t stack_max = tk.i64();
+    int64_t rec_max = tk.i64();
+    int64_t out_initial = tk.i64();
+    double out_resize = (double)tk.i64() / 100.0;
+    auto unhex = [](const std::string& h) {
+      std::string o;
+      for (size_t i = 0; i + 1 < h.size(); i += 2) o += (char)strtol(h.substr(i, 2).c_str(), nullptr, 16);
+      return o;
+    };
+    std::string hexsrc = tk.next();
+    std::string source = unhex(hexsrc == "-" ? std::string() : hexsrc);
+    int64_t nin = tk.i64();
+    std::map<std::string, std::shared_ptr<ForthInputBuffer>> inputs;
+    std::vector<std::string> innames;
+    for (int64_t i = 0; i < nin; i++) {
+      std::string name = tk.next();
+      std::string hx = tk.next();
+      std::string bytes = unhex(hx == "-" ? std::string() : hx);
+      std::shared_ptr<void> ptr(new uint8_t[bytes.size() + 1], kernel::array_deleter<uint8_t>());
+      memcpy(ptr.get(), bytes.data(), bytes.size());
+      inputs[name] = std::make_shared<ForthInputBuffer>(ptr, 0, (int64_t)bytes.size());
+      innames.push_back(name);
+    }
+    ForthMachine64 vm(source, stack_max, rec_max, out_initial, out_resize);
+    util::ForthError err = util::ForthError::none;
+    int64_t guard = 0;
+    if (mode == "run") {
+      err = vm.run(inputs);
+      while (err == util::ForthError::none && !vm.is_done() && guard++ < 100000) err = vm.resume();
+    }
+    else if (mode == "step") {
+      vm.begin(inputs);
+      while (!vm.is_done() && guard++ < 2000000) { err = vm.step(); if (err != util::ForthError::none) break; }
+    }
+    else if (mode == "mixed") {
+      // alternate: a few single steps, then resume to the next pause, ...
+      vm.begin(inputs);
+      int64_t k = 0;
+      while (!vm.is_done() && guard++ < 2000000) {
+        if ((k++ % 5) < 3) err = vm.step(); else err = vm.resume();
+        if (err != util::ForthError::none) break;
+      }
+    }
+    else throw std::logic_error("driver: unknown forth mode " + mode);
+    if (guard >= 100000 && mode == "run") throw std::logic_error("driver: forth program did not finish");
+    out << "(" << (int)err << ",[";
+    std::vector<int64_t> st = vm.stack();
+    for (size_t i = 0; i < st.size(); i++) { if (i) out << ","; out << st[i]; }
+    out << "],{";
+    bool first = true;
+    for (auto pair : vm.variables()) { if (!first) out << ","; first = false; out << "'" << pair.first << "':" << pair.second; }
+    out << "},{";
+    first = true;
+    for (auto pair : vm.outputs()) {
+      if (!first) out << ",";
+      first = false;
+      out << "'" << pair.first << "':";
+      tostr(pair.second.get()->toNumpyArray(), out);
+    }
+    out << "},{";
+    first = true;
+    for (auto& name : innames) { if (!first) out << ","; first = false; out << "'" << name << "':" << vm.input_position_at(name); }
+    out << "})";
     return out.str();
   }
   else if (op == "builder") {
